@@ -1,0 +1,10 @@
+//! Child module of `io_uring_backend::send_buffer_pool` (declared there by one
+//! `#[cfg(rzmq_verif)] #[path] mod` line) so that the verification facade can READ the pool's
+//! private bookkeeping. Read-only.
+use super::SendBufferPool;
+
+/// (`free_ids` front to back, `in_kernel_use` per slot)
+pub(crate) fn snapshot(p: &SendBufferPool) -> (Vec<u16>, Vec<bool>) {
+  let g = p.inner.lock();
+  (g.free_ids.iter().map(|i| i.0).collect(), g.pool.iter().map(|s| s.in_kernel_use).collect())
+}
